@@ -546,7 +546,7 @@ def reads : List (Visitor × Kind × Field × ReadHow) := [
   (.CFGBuilder, .AnnAssign, .f_target, .read),
   (.CFGBuilder, .AnnAssign, .f_value, .read),
   (.CFGBuilder, .Assign, .f_targets, .read),
-  (.CFGBuilder, .Assign, .f_value, .read),
+  (.CFGBuilder, .AugAssign, .f_op, .read),
   (.CFGBuilder, .AugAssign, .f_target, .read),
   (.CFGBuilder, .AugAssign, .f_value, .read),
   (.CFGBuilder, .Expr, .f_value, .read),
@@ -645,7 +645,7 @@ def reads : List (Visitor × Kind × Field × ReadHow) := [
 def generic : List (Visitor × GenericHow) := [
   (.BranchBuilder, .fallback),
   (.CFGBuilder, .rejects),
-  (.ExprBuilder, .forwards),
+  (.ExprBuilder, .other),
   (.ExprChecker, .fallback),
   (.ExprSynthesizer, .rejects)
 ]
